@@ -3,10 +3,13 @@ from props import progs
 from props.progs import replay  # noqa
 
 GEN = 'exc'
-RULE = ("call chains of depth 1–4 with one fault planted at a generator-known depth (抛出异常, custom exception type, 1/0, index out of "
+RULE = ("call chains of depth 1–5 with one fault planted at a generator-known depth (抛出异常, custom exception type, 1/0, index out of "
         "range, undefined name, unknown method), inside loops or branches, with a handler at depth 0…n or none, matching or "
-        "mismatching class, second handler before it; after the call the caller probes its own variables, redeclares a callee-local "
-        "name and calls again. Non-trivial = the fault was raised below the handler's depth or not handled at all.")
+        "mismatching class, second handler before it; handlers that themselves raise (抛出 of either class, 1/0, a failing call) with an "
+        "outer handler 1…n levels further out or none; in half of the programs some levels are methods of objects (receiver 体i) that "
+        "display 其名 and increment 其次 after the level below has returned; after the call the caller probes its own variables, "
+        "redeclares a callee-local name, calls again, displays every object and (sometimes) reads 其 in the program body (error 48); "
+        "three hand-written programs head the stream. Non-trivial = the fault was raised below the handler's depth or not handled at all.")
 ASSUMPTIONS = ["the message text of runtime faults is the implementation's (model prints ‹rt:code›; compared modulo that)"]
 PARTIAL = "reading 其内容 of a runtime fault is 'unspecified' in the spec semantics (message text is not part of the property)"
 
@@ -14,5 +17,5 @@ PARTIAL = "reading 其内容 of a runtime fault is 'unspecified' in the spec sem
 def run(ctx):
     g = progs.G(ctx.rng)
     n = ctx.n(2000, 50000)
-    ps = [g.exc_program() for _ in range(n)]
+    ps = progs.hand_exc() + [g.exc_program() for _ in range(n)]
     progs.run_stream(ctx, 'exc', ps, nontrivial=lambda src, go: '层2' in src or '拦截' not in src)
